@@ -318,5 +318,51 @@ def run(chk, prog):
     # (a half-cell bias on odd grids turns every whole-cell shift into a fractional one; decided under C01 R2, re-evaluated here)
     from .common import reeval
     reeval(chk, prog, "C01", lambda i: i["rule"] == "R2" and "centre" in i["what"], "R10", "R10-centre-agreement", 1)
+    # ---- R11: the offsets that reach the table builder are the offsets given ----------------------------------------------------------------------
+    # "for every fractional offset": in the kick-map classes no store into the offset table rounds, truncates or snaps an offset
+    # (round/floor/ceil/trunc/nearbyint/rint of an offset, or a conversion of it to an integer type)
+    ROUNDERS = ("round", "floor", "ceil", "trunc", "nearbyint", "rint", "lround", "lrint", "llround")
+    n11 = 0
+    for fq_ in prog.functions.values():
+        if not fq_.get("body") or fq_.get("class") not in ("vfps::KickMap", "vfps::RFKickMap", "vfps::DynamicRFKickMap", "vfps::DriftMap", "vfps::WakeKickMap",
+                                                           "vfps::WakePotentialMap", "vfps::WakeFunctionMap"):
+            continue
+        mentions = [y for y in A.walk(fq_["body"]) if A.this_field(y) == "_offset"]
+        if not mentions:
+            continue
+        n11 += 1
+        aliases = set()           # locals bound to an element of _offset (range-for reference, reference / pointer initialised from it)
+        for y in A.walk(fq_["body"]):
+            if y.get("k") == "CXXForRangeStmt" and any(A.this_field(z) == "_offset" for z in A.walk(y.get("range") or {})):
+                v_ = y.get("loopvar") or y.get("var") or {}
+                if v_.get("decl") is not None:
+                    aliases.add(v_["decl"])
+            if y.get("k") == "DeclStmt":
+                for d_ in y.get("decls", []):
+                    if isinstance(d_.get("init"), dict) and ("&" in (d_.get("type") or "") or "*" in (d_.get("type") or "")) and any(A.this_field(z) == "_offset" for z in A.walk(d_["init"])):
+                        aliases.add(d_["decl"])
+        is_off = lambda n_: any(A.this_field(z) == "_offset" or (z.get("k") == "DeclRefExpr" and z.get("decl") in aliases) for z in A.walk(n_))
+        bad = []
+        for y in A.walk(fq_["body"]):
+            cal = (y.get("callee") or "").split("::")[-1]
+            if y.get("k") == "CallExpr" and cal in ROUNDERS and y.get("args") and is_off(y["args"][0]):
+                bad.append((y, "%s() of an offset" % cal))
+            elif y.get("cast") == "FloatingToIntegral" and y.get("c") and is_off(y["c"][0]) and not any(p_.get("k") in ("ArraySubscriptExpr",) for p_ in []):
+                bad.append((y, "conversion of an offset to %s" % y.get("ctype")))
+        # only quantisation that flows back into the table counts (updateSM legitimately splits an offset into cell and fraction)
+        stores = [(x_, l_, r_) for x_, l_, op_, r_ in A.assignments_in(fq_["body"]) if is_off(l_)]
+        tainted_locals = set()
+        for y, why in bad:
+            for st in A.walk(fq_["body"]):
+                if st.get("k") == "DeclStmt":
+                    for d_ in st.get("decls", []):
+                        if isinstance(d_.get("init"), dict) and any(z is y or z.get("id") == y["id"] for z in A.walk(d_["init"])):
+                            tainted_locals.add(d_["decl"])
+        for x_, l_, r_ in stores:
+            hit = [why for y, why in bad if any(z is y or z.get("id") == y["id"] for z in A.walk(r_))] + \
+                  ["a rounded copy held in a local" for z in A.walk(r_) if z.get("k") == "DeclRefExpr" and z.get("decl") in tainted_locals]
+            chk.check(not hit, "R11", A.loc(fq_, x_), "%s stores an offset that was not rounded or snapped (%s)" % (fq_["qname"].replace("vfps::", ""), hit or "plain value"),
+                      "offset-quantised:%s" % fq_["qname"].replace("vfps::", ""))
+    chk.floor("R11-functions-touching-the-offsets", n11, 4)
     chk.notes.append("C02: Lagrange/partition-of-unity identities for orders 1-4 over nodes read from updateSM/genHInfo; "
                      "exact-zero structure at f=0; frac/ipart pairing; bounds-guarded weights. Not decided: rounding over all floats.")
